@@ -62,8 +62,12 @@ def eff(units):
     return None if units is None else int(Decimal(f"{units / 1e11:.11f}") * U)
 
 
-def grid(asset, rows, cfee, bad=None, order=("IN", "OUT", "INTRA")):
-    """`bad` = (row id, kind): one cell of that row is made invalid (fault 'bad-cell'); `order`: order of the tables in the sheet"""
+_GAP = {"n": 0}     # blank rows between the tables of a sheet (room left to append rows): part of the case, used by grid() and renumber()
+
+
+def grid(asset, rows, cfee, bad=None, order=("IN", "OUT", "INTRA"), gap=0):
+    """`bad` = (row id, kind): one cell of that row is made invalid (fault 'bad-cell'); `order`: order of the tables in the sheet;
+    `gap`: blank rows after every table"""
     g = []
     for t in order:
         g.append([t] + [None] * (W - 1))
@@ -119,6 +123,8 @@ def grid(asset, rows, cfee, bad=None, order=("IN", "OUT", "INTRA")):
                     row[m["asset"]] = [x for x in ALL_ASSETS if x != asset][0]
             g.append(row)
         g.append(["TABLE END"] + [None] * (W - 1))
+        for _ in range(gap):
+            g.append([None] * W)
     return g
 
 
@@ -189,12 +195,19 @@ def renumber(rows, torder, cfee_a):
                 old2new[x[1]] = rid
             x[1] = rid
             rid += 1
-        rid += 3
+        rid += 3 + _GAP["n"]
     return {str(old2new[int(k)]): v for k, v in cfee_a.items() if int(k) in old2new}
 
 
 def gen(rng, prop=None):
     _CRAFT["k"] += 1
+    _GAP["n"] = 0
+    c = _gen(rng, prop)
+    c.setdefault("gap", _GAP["n"])
+    return c
+
+
+def _gen(rng, prop=None):
     if prop == "C16" and _CRAFT["k"] == 3:
         # three assets with 38-49 sales each: more rows on the Capital Gains sheet than the template holds, none of the assets alone
         n = rng.randint(38, 47)
@@ -266,6 +279,9 @@ def gen(rng, prop=None):
     heavy_cfee = prop == "C17" and rng.random() < 0.35
     # order of the three tables in every sheet of the run (the documented format allows any)
     torder = ["IN", "OUT", "INTRA"] if rng.random() < 0.5 else rng.choice([["IN", "INTRA", "OUT"], ["OUT", "IN", "INTRA"], ["OUT", "INTRA", "IN"], ["INTRA", "IN", "OUT"], ["INTRA", "OUT", "IN"]])
+    # blank rows between the tables (room left under a table to append rows later: the documented format allows any number)
+    if rng.random() < 0.14:
+        _GAP["n"] = rng.choice([1, 3, 31, 32, 33, 49, 50, 51, 64, 130])
     for a in ALL_ASSETS[:n_assets]:
         c = P.gen(rng, "reports") if prop != "C05" else P.gen(rng, "C05")
         if prop == "C05":
@@ -289,7 +305,7 @@ def gen(rng, prop=None):
                     if x[0] == tbl:
                         x[1] = rid
                         rid += 1
-                rid += 3
+                rid += 3 + _GAP["n"]
         # rows are numbered as they will lie in the sheet (the tables may come in any order; rows dropped above leave no gap)
         renumber(rows, torder, {})
         # amounts that survive the float round trip exactly (<= 1e15 units); prices are re-read through eff()
@@ -460,7 +476,7 @@ KNOWN_FAULTS = {"jp-from-and-to": "F8", "unknown-generator": "F14"}     # genuin
 def write_inputs(case, d):
     doc = ezodf.newdoc("ods", os.path.join(d, "in.ods"))
     for a, rows in case["assets"].items():
-        g = grid(a, rows, case["cfee"].get(a, {}), case["badcell"][1:] if case.get("fault") == "bad-cell" and case["badcell"][0] == a else None, order=case.get("table_order") or ("IN", "OUT", "INTRA"))
+        g = grid(a, rows, case["cfee"].get(a, {}), case["badcell"][1:] if case.get("fault") == "bad-cell" and case["badcell"][0] == a else None, order=case.get("table_order") or ("IN", "OUT", "INTRA"), gap=case.get("gap", 0))
         sh = ezodf.Table(a, size=(len(g) + 2, W + 1))
         for i, row in enumerate(g):
             for j, v in enumerate(row):
@@ -816,7 +832,7 @@ def encode(case):
     L = ["RESET"] + ini_lines(case)
     for a, rows in case["assets"].items():
         L.append(f"S {PA.hexs(a)}")
-        g = grid(a, rows, case["cfee"].get(a, {}), case["badcell"][1:] if case.get("fault") == "bad-cell" and case["badcell"][0] == a else None, order=case.get("table_order") or ("IN", "OUT", "INTRA"))
+        g = grid(a, rows, case["cfee"].get(a, {}), case["badcell"][1:] if case.get("fault") == "bad-cell" and case["badcell"][0] == a else None, order=case.get("table_order") or ("IN", "OUT", "INTRA"), gap=case.get("gap", 0))
         for row in g + [[None] * W, [None] * W]:
             L.append("R " + " ".join(PA.cell_tok(v) for v in row + [None]))
     fd = date.fromisoformat(case["from"]) if case["from"] else None
@@ -1200,7 +1216,7 @@ def oracle_c17(case, res, guard=True):
                             old2new[x[1]] = rid
                             x[1] = rid
                             rid += 1
-                    rid += 3
+                    rid += 3 + case.get("gap", 0)
                 new_assets[a] = new
                 new_cfee[a] = {str(old2new[int(k)]): v_ for k, v_ in case["cfee"].get(a, {}).items()}
             r2 = run_impl(dict(case, table_order=torder, assets=new_assets, cfee=new_cfee, variant=None))
@@ -1230,7 +1246,7 @@ def oracle_c17(case, res, guard=True):
                         old2new[x[1]] = rid
                         x[1] = rid
                         rid += 1
-                rid += 3
+                rid += 3 + case.get("gap", 0)
             perm[a] = (new, old2new)
         c2 = dict(case, table_order=torder, assets={a: perm[a][0] for a in perm}, cfee={a: {str(perm[a][1][int(k)]): v_ for k, v_ in case["cfee"].get(a, {}).items()} for a in perm})
         r2 = run_impl(c2)
@@ -1411,7 +1427,7 @@ def oracle_c09(case, res, guard=True):
                     old2new[x[1]] = rid
                     x[1] = rid
                     rid += 1
-            rid += 3
+            rid += 3 + case.get("gap", 0)
         new_assets[a] = new
         new_cfee[a] = {str(old2new[int(k)]): v_ for k, v_ in case["cfee"].get(a, {}).items() if int(k) in old2new}
     r2 = run_impl(dict(case, assets=new_assets, cfee=new_cfee, to=None, variant=None, fresh=False))
@@ -1562,6 +1578,7 @@ ORACLES = {"C01": oracle_c01, "C03": oracle_c03, "C09": oracle_c09, "C05": oracl
 
 
 def shrink_candidates(case):
+    _GAP["n"] = case.get("gap", 0)
     for a in list(case["assets"]):
         if len(case["assets"]) > 1 and case["only"] != a:
             yield dict(case, assets={k: v for k, v in case["assets"].items() if k != a})
